@@ -59,7 +59,9 @@ def _cases(draw, tier):
             op = {"op": "b", "len": l1 + l2, "g": [nxt, nxt + l1 + draw(st.integers(1, max(1, spf)))], "d": [0, l1]}
             m.apply(op)
             ops.append(op)
-    return {"cfg": cfg, "ops": ops, "py_sample": [draw(st.integers(0, 10 ** 6)) for _ in range(6 if tier == "quick" else 25)]}
+    return {"cfg": cfg, "ops": ops, "py_sample": [draw(st.integers(0, 10 ** 6)) for _ in range(6 if tier == "quick" else 25)],
+            # how the Python recording ends: close(), a with block, a with block left by an application exception
+            "py_end": draw(st.sampled_from(["close", "with", "withexc", "withexc"]))}
 
 
 def strategy(tier):
@@ -73,7 +75,7 @@ def directed_cases(tier):
            "cont": 0, "comp": 0, "checksum": 0, "salt": 5, "uuid": "verif", "start": 170000000040}
     ops = [{"op": "w", "idx": 0, "len": 90}, {"op": "b", "len": 50, "g": [100, 180], "d": [0, 30]},
            {"op": "b", "len": 40, "g": [260, 300], "d": [0, 10]}, {"op": "w", "idx": 400, "len": 30}]
-    out = [{"cfg": cfg, "ops": ops, "py_sample": [3, 14, 15, 92, 65, 35]}]
+    out = [{"cfg": cfg, "ops": ops, "py_sample": [3, 14, 15, 92, 65, 35], "py_end": "withexc"}]
     # a chunked file larger than HDF5's 1 MiB chunk cache (32-byte samples): H5Dwrite then has to evict - i.e. write out -
     # chunks that belong to EARLIER, already accepted calls, so a fault during a later call can lose an earlier call's data
     big = {"kind": "i", "size": 8, "order": "<", "cplx": 1, "form": "struct", "nsub": 2, "n": 100000, "d": 1, "F": 1000, "S": 10,
@@ -263,14 +265,16 @@ def run_case(case):
             top = os.path.join(d, "data")
             os.makedirs(os.path.join(top, "ch0"))
             rc_, ev_, err_ = fsx.run(writer, cfg, case["ops"], top, os.path.join(top, "ch0"), d,
-                                     {"FSX_FAIL_AT": str(k), "FSX_ERRNO": str(ERRNOS[en]), "FSX_PERSIST": str(ps)}, timeout=60)
+                                     {"FSX_FAIL_AT": str(k), "FSX_ERRNO": str(ERRNOS[en]), "FSX_PERSIST": str(ps),
+                                      "PYW_END": case.get("py_end", "close")}, timeout=60)
             return i, writer, (k, en, ps), d, top, rc_, ev_, err_
 
         jobs = [(i, "c", s) for i, s in enumerate(scheds)]
         # the Python path: the trace differs (more opens), so it has its own numbering: sample operations of ITS trace
         ptop = os.path.join(base, "pref", "data")
         os.makedirs(os.path.join(ptop, "ch0"))
-        prc, pev, _ = fsx.run("py", cfg, case["ops"], ptop, os.path.join(ptop, "ch0"), os.path.join(base, "pref"))
+        prc, pev, _ = fsx.run("py", cfg, case["ops"], ptop, os.path.join(ptop, "ch0"), os.path.join(base, "pref"),
+                              {"PYW_END": case.get("py_end", "close")})
         pops = call_of_op(pev)[2]
         pref = {"renamed_at": {}, "semantic": {}}
         for k, e in pops.items():
